@@ -311,6 +311,14 @@ func (x *c04ctx) isComplement(p *Path, cond ssa.Value, took bool, at int) bool {
 				}
 			case hopID("keys", "", "VerifySignature"):
 				return !val
+			default:
+				// a predicate helper around one time comparison (expired(c, now), notYetValid(c, now), ...)
+				for _, r := range helperTimeRels(call, val) {
+					fy := lastField(p.Deref(r.y, at))
+					if (r.lt && fy == x.fIssued) || (!r.lt && fy == x.fExp) {
+						return true // now < IssuedAt, or now >= ExpiresAt
+					}
+				}
 			}
 		}
 	}
